@@ -147,6 +147,25 @@ fn main() {
             println!("inputs1={}", join(&r.1));
             println!("grandparents={}", join(&r.2));
         }
+        // trivial_move n0 n1 : level 1 holds n0 (1..2) adjacent files which are the chosen inputs, level 2 holds n1 files that
+        // overlap them; after the real input finalisation the manifest is asked whether this is a trivial move
+        "trivial_move" => {
+            let (n0, n1) = (num(a[1]) as usize, num(a[2]) as usize);
+            if n0 == 0 {
+                println!("trivial=no-scenario");
+                return;
+            }
+            let mk = |n: u64, lo: u8, hi: u8| -> v::VFile { (n, 100, (vec![lo], 9), (vec![hi], 8)) };
+            let l1: Vec<v::VFile> = (0..n0).map(|i| mk(10 + i as u64, 10 + 20 * i as u8, 25 + 20 * i as u8)).collect();
+            let l2: Vec<v::VFile> = (0..n1).map(|i| mk(20 + i as u64, 12 + 6 * i as u8, 15 + 6 * i as u8)).collect();
+            let lv = vec![(1usize, l1), (2usize, l2)];
+            let chosen: Vec<usize> = (0..n0).collect();
+            let mut o = opts();
+            o.max_file_size = 1 << 20;
+            let (trivial, i0, i1) = v::trivial_move_decision(o, 1, &lv, &chosen);
+            println!("trivial={}", trivial);
+            println!("inputs={}+{}", i0, i1);
+        }
         // table_iter ops targetU:seq shape uk:seq:op:vv ...
         "table_iter" => {
             let t = key(a[2]);
